@@ -243,9 +243,45 @@ class _Unroller:
         return outer
 
     # ---- walk
+    def _next_lookup(self, modname, imports, st: ast.stmt, shadowed: set[str]):
+        """`x = next((E for T in TABLE if C), DEFAULT)` over a constant table  ->  the loop it abbreviates
+        (`for T in TABLE: if C: x = E; break` / `else: x = DEFAULT`), which is then spelled out row by row."""
+        if not (type(st) is ast.Assign and len(st.targets) == 1 and isinstance(st.targets[0], ast.Name) and isinstance(st.value, ast.Call)
+                and isinstance(st.value.func, ast.Name) and st.value.func.id == "next" and len(st.value.args) == 2 and not st.value.keywords
+                and isinstance(st.value.args[0], ast.GeneratorExp) and len(st.value.args[0].generators) == 1):
+            return None
+        ge = st.value.args[0]
+        g = ge.generators[0]
+        if g.is_async or self._rows(modname, imports, g.iter, shadowed) is None or not _plain(st.value.args[1], True):
+            return None
+        self.count += 1
+        pre = f"_nx{self.count}_"
+        names = {x.id for x in ast.walk(g.target) if isinstance(x, ast.Name)}
+
+        class _Ren(ast.NodeTransformer):
+            def visit_Name(self, n):
+                if n.id in names:
+                    return ast.copy_location(ast.Name(id=pre + n.id, ctx=n.ctx), n)
+                return n
+
+        self.count -= 1
+        tgt = _Ren().visit(copy.deepcopy(g.target))
+        hit = [ast.Assign(targets=[copy.deepcopy(st.targets[0])], value=_Ren().visit(copy.deepcopy(ge.elt)), type_comment=None), ast.Break()]
+        inner: list = hit
+        for c in reversed(g.ifs):
+            inner = [ast.If(test=_Ren().visit(copy.deepcopy(c)), body=inner, orelse=[])]
+        loop = ast.For(target=tgt, iter=g.iter, body=inner,
+                       orelse=[ast.Assign(targets=[copy.deepcopy(st.targets[0])], value=st.value.args[1], type_comment=None)], type_comment=None)
+        ast.copy_location(loop, st)
+        ast.fix_missing_locations(loop)
+        return loop
+
     def _body(self, modname, imports, body: list, shadowed: set[str]) -> list:
         out = []
         for st in body:
+            nl = self._next_lookup(modname, imports, st, shadowed)
+            if nl is not None:
+                st = nl
             if type(st) is ast.For:
                 rows = self._rows(modname, imports, st.iter, shadowed)
                 if rows is not None:
@@ -257,6 +293,9 @@ class _Unroller:
 
     def _children(self, modname, imports, st: ast.AST, shadowed: set[str]) -> None:
         if isinstance(st, (ast.FunctionDef, ast.AsyncFunctionDef)):
+            # nothing to do in a function without a `for` statement or a `next(..)` look-up (most functions): skip the walks
+            if not any(isinstance(x, (ast.For,)) or (isinstance(x, ast.Call) and isinstance(x.func, ast.Name) and x.func.id == "next") for x in ast.walk(st)):
+                return
             sh = set(shadowed)
             for x in ast.walk(st):
                 if isinstance(x, ast.Name) and isinstance(x.ctx, (ast.Store, ast.Del)):
